@@ -193,6 +193,13 @@ class Solver:
                 return self.canon(body, tracked, e[2], depth + 1)
             return None
         if k == "field":
+            if tracked[0] == "upvar":
+                # closure environment: (*_1).k is a captured reference to the handle
+                base = strip_refs(e[1])
+                while base[0] == "deref":
+                    base = strip_refs(base[1])
+                if base == ("param", 1) and e[2] == tracked[1]:
+                    return "self"
             c = self.canon(body, tracked, e[1], depth + 1)
             if c == "self":
                 # which type is e[1]?  LeanString.0 is the Repr itself; Repr.0 / HeapBuffer.ptr
@@ -245,6 +252,12 @@ class Solver:
         """Type (base) of a place-expression that canonicalises to 'self'."""
         e = strip_refs(e)
         k = e[0]
+        if k == "field" and tracked[0] == "upvar" and len(e) > 3 and e[3]:
+            base = strip_refs(e[1])
+            while base[0] == "deref":
+                base = strip_refs(base[1])
+            if base == ("param", 1) and e[2] == tracked[1]:
+                return base_type(e[3])
         if k == "param" or k in ("local", "mem"):
             return base_type(body.local_ty(e[1]))
         if k in ("ref", "rawptr"):
@@ -367,6 +380,11 @@ class Solver:
                         if hn != "repr::heap_buffer::HeapBuffer::with_capacity":
                             vp = self.is_text_of_self(body, tracked, body.origin_operand(ht["args"][0]))
                         return ([("H", True)], vp, hn)
+                # any other by-value HeapBuffer: such values are produced only by the fresh constructors
+                # (no Clone/Copy impl, bitwise copies and transmutes are audited by DUP / OWNPRIM), unless
+                # it is a copy of the tracked handle itself
+                if args and self.canon(body, tracked, args[0]) is None:
+                    return ([("H", True)], False, "from_heap(<owned HeapBuffer value>)")
                 return ([("H", False)], False, "from_heap(?)")
             if n == "repr::Repr::from_inline":
                 vp = False
@@ -557,6 +575,12 @@ class Solver:
                 return [(rv[2], t)]
             if rv[1] == "core::option::Option":
                 return [(rv[2], t)]
+            a = self.F.adts.get(rv[1])
+            if a and a["kind"] == "enum" and not rv[3]:
+                # a local field-less enum value (e.g. a storage-kind classifier): remember which
+                for v in a["variants"]:
+                    if v["name"] == rv[2]:
+                        return [(("enum", v.get("discr")), t)]
         if rv[0] == "const" and rv[1] == "bool":
             return [(bool(rv[2]), t)]
         if rv[0] == "call":
@@ -596,7 +620,8 @@ class Solver:
                 return [(f[e[1]], t)]
             return [(True, t), (False, t)]
         if k == "phi":
-            # a bool local assigned on several paths (if/else producing a bool): cannot follow
+            # a bool local assigned on several paths (`a || b`, `if c { x } else { y }`): the paths'
+            # own guards already refined the tuple on the way here; nothing more to learn
             return [(True, t), (False, t)]
         if k == "bin" and e[1] in ("Eq", "Ne", "Lt", "Le", "Gt", "Ge"):
             op, a, b = e[1], strip_refs(e[2]), strip_refs(e[3])
@@ -822,6 +847,28 @@ class Solver:
                 ds = body.defs.get(inner[1], [])
                 if len(ds) == 1 and ds[0][1] == "term":
                     inner = ("call", ds[0][0])
+            if inner[0] == "field":
+                up = self.unwrap_payload(body, inner)
+                if up is not None:
+                    routed = False
+                    for s in cur:
+                        f = dict((a, b) for (a, b) in s.facts if isinstance(a, int))
+                        c0 = f.get(up[0])
+                        if isinstance(c0, str) and ":" in c0 and c0.split(":")[0] == ("Ok" if up[1] in ("Ok", 0) else "Err"):
+                            sub = c0.split(":")[1]
+                            want = {"None": 0, "Some": 1, "Ok": 0, "Err": 1}.get(sub)
+                            tg = otherwise
+                            for av, ab in arms:
+                                if av == want:
+                                    tg = ab
+                            add(tg, {s})
+                        else:
+                            for av, ab in arms:
+                                add(ab, {s})
+                            add(otherwise, {s})
+                        routed = True
+                    if routed:
+                        return
             if inner[0] == "call":
                 ct = body.term(inner[1])
                 n = callee_name(ct)
@@ -838,7 +885,15 @@ class Solver:
                     for s in cur:
                         f = dict((a, b) for (a, b) in s.facts if isinstance(a, int))
                         cls = f.get(src)
-                        if cls in ("Ok", "Err", "Some", "None"):
+                        if isinstance(cls, str) and ":" in cls:
+                            cls = cls.split(":")[0]
+                        if isinstance(cls, tuple) and cls and cls[0] == "enum" and not is_try:
+                            tgt = otherwise
+                            for av, ab in arms:
+                                if av == cls[1]:
+                                    tgt = ab
+                            add(tgt, {s})
+                        elif cls in ("Ok", "Err", "Some", "None"):
                             if is_try:
                                 want = 0 if cls in ("Ok", "Some") else 1
                             elif "Option" in dty.split("<")[0]:
@@ -855,6 +910,23 @@ class Solver:
                                 add(ab, {s})
                             add(otherwise, {s})
                     return
+        e2 = strip_refs(e)
+        if e2[0] == "call" and t["discr_ty"] in ("usize", "u64", "u32"):
+            ct = body.term(e2[1])
+            cn = callee_name(ct)
+            if cn.startswith("core::sync::atomic::") and cn.rsplit("::", 1)[1] in ("load", "fetch_sub"):
+                # switchInt on the counter value: arm `1` is `== 1`, everything else `!= 1`
+                for s in cur:
+                    for v, s2 in self.eval_bool(body, tracked, ("bin", "Eq", e2, ("const", t["discr_ty"], 1, None)), s):
+                        if v:
+                            tg = [ab for av, ab in arms if av == 1]
+                            add(tg[0] if tg else otherwise, {s2})
+                        else:
+                            for av, ab in arms:
+                                if av != 1:
+                                    add(ab, {s2})
+                            add(otherwise, {s2})
+                return
         for av, ab in arms:
             add(ab, cur)
         add(otherwise, cur)
@@ -1004,6 +1076,32 @@ class Solver:
                 finish(out)
                 return
 
+        # ---- `cond.then(f)` / `cond.then_some(x)`: Some exactly when cond holds
+        if n in ("core::bool::<impl bool>::then", "core::bool::<impl bool>::then_some") and args:
+            out = set()
+            ce = strip_refs(args[0])
+            for s in cur:
+                for v, s2 in self.eval_bool(body, tracked, ce, s):
+                    out.add(self._setfact(s2, bb, "Some" if v else "None"))
+            finish(out)
+            return
+        # ---- Option<Result<T,E>>::transpose: None -> Ok(None); Some(r) -> r.map(Some)
+        if n == "core::option::Option::<core::result::Result<T, E>>::transpose" and args:
+            a0 = strip_refs(args[0])
+            out = set()
+            for s in cur:
+                f = dict((a, b) for (a, b) in s.facts if isinstance(a, int))
+                c0 = f.get(a0[1]) if a0[0] == "call" else None
+                if c0 == "None":
+                    out.add(self._setfact(s, bb, "Ok:None"))
+                elif c0 == "Some":
+                    out.add(self._setfact(s, bb, "Ok:Some"))
+                    out.add(self._setfact(s, bb, "Err"))
+                else:
+                    out.add(s)
+            finish(out)
+            return
+
         # ---- is_len_on_heap fact
         if n == "repr::heap_buffer::HeapBuffer::is_len_on_heap" and can and can[0] == "self":
             out = set()
@@ -1082,7 +1180,7 @@ class Solver:
                     if cls == "unwind":
                         unwind_exit({s3}, "callee unwinds")
                         continue
-                    if cls in ("Ok", "Err", "Some", "None", True, False):
+                    if cls in ("Ok", "Err", "Some", "None", True, False) or (isinstance(cls, tuple) and cls and cls[0] == "enum"):
                         s3 = self._setfact(s3, bb, cls)
                     else:
                         s3 = s3._replace(facts=frozenset(f for f in s3.facts if f[0] != bb))
@@ -1114,8 +1212,33 @@ class Solver:
             return True
         if n.endswith("::unwrap_with_msg") or n.endswith("do_panic_with_msg"):
             return True
-        if t.get("cb_closures") or t.get("cb_impls"):
+        if t.get("cb_impls"):
             return True
+        if t.get("cb_closures"):
+            # a std combinator given a local closure (`unwrap_or_else(|_| unreachable())`): an exit
+            # only if the closure itself can unwind outside debug-only regions
+            return any(self._may_unwind(c) for c in t["cb_closures"])
+        return False
+
+    def _may_unwind(self, key, depth=0):
+        b = self.F.bodies.get(key)
+        if b is None or depth > 3:
+            return True
+        dbg = b.debug_only_blocks()
+        for bb, ct in b.calls():
+            if bb in dbg:
+                continue
+            cn = callee_name(ct)
+            if not ct.get("resolved"):
+                return True
+            if cn.startswith("core::panicking::") and "nounwind" not in cn:
+                return True
+            k = ct.get("local_key")
+            if k and self._may_unwind(k, depth + 1):
+                return True
+        for bb in range(b.n):
+            if b.term(bb)["k"] == "assert" and bb not in dbg and b.term(bb)["msg_kind"] in ("bounds",):
+                return True
         return False
 
     FOREIGN_OK = {
@@ -1139,7 +1262,7 @@ class Solver:
                 return
         # LeanString-level tracked objects handed to generic library code (format machinery,
         # iterator adaptors) can only be used through the safe API; Repr-level ones must not escape.
-        ty = base_type(body.local_ty(tracked[1]))
+        ty = base_type(body.local_ty(tracked[1])) if tracked[0] != "upvar" else "LeanString"
         if ty == "LeanString":
             finish(cur)
             return
